@@ -179,6 +179,8 @@ CHECKS = {
                               "the manager's mutex and are explored only through the two gates"],
         parts=[
             dict(name="random", run="TestC16Random", checks=dict(quick=3000, thorough=30000), shards=dict(quick=1, thorough=16)),
+            # free-running: the windows inside one release/acquire (last release racing a new request) on the real scheduler; holder-local oracles
+            dict(name="stress", run="TestC16Stress", rapid=False, args=dict(quick=["-c16.stress=250"], thorough=["-c16.stress=3000"]), shards=dict(quick=1, thorough=8)),
         ],
     ),
     "C04": dict(
